@@ -387,6 +387,41 @@ def a10(ctx, rid):
         ctx.ok(rid, 'headers-only-grow|scan', '', '%d mutable accesses to the header map, none followed by an element removal' % n, queries=n)
 
 
+def _option_aggs(f, operand, depth=6, seen=None):
+    """the `Some(..)` / `None` aggregates an Option-typed operand is copied from (through plain copies and the payload of a
+    `Poll::Ready`); [] when some definition is anything else"""
+    if seen is None:
+        seen = set()
+    p = core.op_place(operand)
+    if p is None or depth <= 0:
+        return []
+    l = p[0]
+    if l in seen:
+        return []
+    seen.add(l)
+    out = []
+    for (bb, si, kind, r) in f.defs().get(l, []):
+        if bb not in f.reachable():
+            continue
+        if kind != 'assign':
+            return []
+        if r['k'] == 'use':
+            sub = _option_aggs(f, r['o'], depth - 1, seen)
+            if not sub:
+                return []
+            out += sub
+        elif r['k'] == 'agg' and r.get('adt') == 'std::task::Poll' and r.get('ops'):
+            sub = _option_aggs(f, r['ops'][0], depth - 1, seen)
+            if not sub:
+                return []
+            out += sub
+        elif r['k'] == 'agg' and r.get('adt') == 'std::option::Option':
+            out.append((bb, r))
+        else:
+            return []
+    return out
+
+
 def a11(ctx, rid):
     """records_count_in_active_blob is None exactly when there is no active blob: every Some answer is produced on the Some edge
     of a test of the active-blob slot (or is a projection of that slot), never taken from a list that also describes closed
@@ -422,6 +457,13 @@ def a11(ctx, rid):
                 if r.get('variant') == 'Some' and (not slot_edges or bb in f.reach_from([0], avoid_enter=slot_edges)):
                     bad = (bb, 'a Some answer is produced on a path that did not see an active blob')
             elif kind == 'assign' and r['k'] == 'use':
+                aggs = _option_aggs(f, r['o'])
+                if aggs:
+                    # the answer was built as Some / None further up (an inlined helper hands it over through `Poll::Ready`)
+                    for (b2, r2) in aggs:
+                        if r2.get('variant') == 'Some' and (not slot_edges or b2 in f.reach_from([0], avoid_enter=slot_edges)):
+                            bad = (b2, 'a Some answer is produced on a path that did not see an active blob')
+                    continue
                 leaf = {x for x in core.field_leaf_names(f, r['o'])}
                 if leaf != {'active_blob'}:
                     bad = (bb, 'the answer is copied from something other than the active-blob slot')
